@@ -344,6 +344,17 @@ func (cache *dirCache) markDir(path string, size uint64) {
 	cache.added[path+"="] = size
 }
 
+// renameUnlessMarked renames an entry aside unless it has been passed to markDir.
+// The check and the rename happen under the lock so the entry cannot be marked in between.
+func (cache *dirCache) renameUnlessMarked(path, newPath string) (bool, error) {
+	cache.mutex.Lock()
+	defer cache.mutex.Unlock()
+	if _, present := cache.added[path]; present {
+		return false, nil
+	}
+	return true, os.Rename(path, newPath)
+}
+
 // isMarked returns true if a directory has previously been passed to markDir.
 func (cache *dirCache) isMarked(path string) (uint64, bool) {
 	cache.mutex.Lock()
@@ -453,17 +464,16 @@ func (cache *dirCache) clean(highWaterMark, lowWaterMark uint64) uint64 {
 	})
 	verifOp("clean-sorted", cache.Dir)
 	for _, entry := range entries {
-		if _, marked := cache.isMarked(entry.Path); marked {
-			continue
-		}
 
 		log.Debug("Cleaning %s, accessed %s, saves %s", entry.Path, humanize.Time(time.Unix(entry.Atime, 0)), humanize.Bytes(entry.Size))
 		// Try to rename the directory first so we don't delete bits while someone might access them.
 		verifOp("clean-evict", entry.Path)
 		newPath := entry.Path + "="
-		if err := os.Rename(entry.Path, newPath); err != nil {
+		if renamed, err := cache.renameUnlessMarked(entry.Path, newPath); err != nil {
 			log.Errorf("Couldn't rename %s: %s", entry.Path, err)
 			continue
+		} else if !renamed {
+			continue // Has been stored or retrieved since we walked the cache.
 		}
 		if err := fs.RemoveAll(newPath); err != nil {
 			log.Errorf("Couldn't remove %s: %s", newPath, err)
